@@ -195,6 +195,15 @@ func cmdCheck(args []string) int {
 			}
 		}
 		res := Explore(w, h.Name, b, *workers, *solver, prop)
+		if len(res.SolverErrs) > 0 {
+			// An `(error` line makes everything a solver process answered afterwards untrustworthy (on a loaded machine
+			// z3's wall-clock timer can cancel the *next* command, e.g. "push canceled", and unbalance the stack). The
+			// harness is explored once more from scratch with fresh solver processes; an error that recurs stays
+			// inconclusive.
+			first := res.SolverErrs[0]
+			fmt.Printf("harness %-28s solver error (%s): explored once more with fresh solver processes\n", h.Name, first)
+			res = Explore(w, h.Name, b, *workers, *solver, prop)
+		}
 		results = append(results, res)
 		if *verbose {
 			printResult(res, true)
